@@ -200,9 +200,21 @@ def check_hazards(rule, kind, root=None):
                 if e.kind in ("label", None):
                     continue
                 rv = [o for o in e.reads if o.kind == "vec"]
+                # the zeroing / all-ones idioms name a register twice without reading its value
+                self_idiom = len({o.name for o in x.ops if o.kind == "vec"}) == 1 and _re.fullmatch(r"v?p?(xor|sub|cmpeq)(ps|pd|d|q|w|b)?", x.mnem or "")
                 for o in rv:
                     if o.name.startswith("T:"):
                         pn = o.name[2:]
+                        # scalar / insert forms pass the destination's other lanes through: that is a merge, not a use
+                        vec_ops = [q for q in x.ops if q.kind == "vec"]
+                        merge = (
+                            bool(_re.search(r"(ss|sd)$", x.mnem or "")) and vec_ops and vec_ops[0].name == o.name
+                            and (len(vec_ops) == 2 or (len(vec_ops) >= 2 and vec_ops[1].name == o.name and all(q.name != o.name for q in vec_ops[2:])))
+                        ) or (
+                            bool(_re.fullmatch(r"v?pinsr[bwdq]|v?insertps|v?movlhps|v?movhlps|v?movlps|v?movhps", x.mnem or "")) and vec_ops and vec_ops[0].name == o.name
+                        )
+                        if pn == outp and not out_written and not self_idiom and not merge and name in op_builders(builders):
+                            found.add((x.ln, "stale-out", "`%r` reads the output register `%s` before anything was written to it: it holds an unrelated value unless the allocator happened to give the operand the same register" % (x, pn)))
                         if out_written and pn in inputs:
                             found.add((x.ln, "alias", "`%r` reads input `%s` after the output register was written; the allocator may assign them the same register" % (x, pn)))
                         if x0_written and pn in may_imm:
